@@ -12,4 +12,11 @@ open KB.Generated
 and the revision the data was read at are the same sample. -/
 theorem list_samples_revision_once : listRevisionSamples = 1 ∧ listSamplesBeforeScan = true := by decide
 
+/-- C06: a watch subscribes to the hub before it reads the event cache — what closes the gap between the
+history it replays and the live events (the model's hand-over step is atomic in exactly this order). -/
+theorem subscribe_before_cache_read : watchSubscribesBeforeCacheRead = true := by decide
+
+/-- C06: events enter the cache before they are broadcast. -/
+theorem cache_before_broadcast : seqCacheBeforeBroadcast = true := by decide
+
 end KB.OrderC06
